@@ -3,7 +3,7 @@
 
 mod clock_state_fsm;
 
-use clock_bound_shm::{ClockErrorBound, ShmWrite, ShmWriter};
+use clock_bound_shm::{ClockErrorBound, ClockStatus, ShmWrite, ShmWriter};
 use chrony_candm::reply::Tracking;
 use std::path::Path;
 use std::time::Duration;
@@ -42,6 +42,11 @@ where
 
     /// Reserved field.  Place-holder that is reserved for future use.
     reserved1: u32,
+
+    /// Whether `bound_nsec` and `as_of` hold a measurement, that is whether a synchronized chrony
+    /// report has been processed since this updater was created. Until then they are place-holders
+    /// and no status other than Unknown may be advertised with them.
+    has_measurement: bool,
 }
 
 impl<W> ShmUpdater<W>
@@ -60,6 +65,7 @@ where
                 tv_nsec: 0,
             },
             reserved1: 0,
+            has_measurement: false,
         }
     }
 
@@ -78,13 +84,21 @@ where
             tv_nsec: 0,
         };
 
+        // Before a first synchronized report has been seen, the bound and as_of are place-holders
+        // (zero): do not let clients trust them, whatever the clock status FSM says.
+        let clock_status = if self.has_measurement {
+            self.shm_clock_state.value()
+        } else {
+            ClockStatus::Unknown
+        };
+
         let ceb = ClockErrorBound::new(
             self.as_of,
             void_after,
             self.bound_nsec,
             self.max_drift_ppb,
             self.reserved1,
-            self.shm_clock_state.value(),
+            clock_status,
         );
 
         debug!("Writing ClockErrorBound to shared memory {:?}", ceb);
@@ -120,6 +134,7 @@ where
         if clock_status == ChronyClockStatus::Synchronized {
             self.bound_nsec = bound_nsec;
             self.as_of = as_of;
+            self.has_measurement = true;
         }
 
         // Finally write the new CEB out to shared memory.
